@@ -20,7 +20,7 @@ from sexp import Sym, dumps
 
 PROP = 'C05'
 RULE = ('random name-resolved action bodies (quick: 1-10 top-level statements, thorough: up to 25; nesting depth <= 3) '
-        'over assignments to transients / attributes / self attributes, instance-handle copies, if/elif/else, while, '
+        'over assignments to transients / attributes / self attributes / array elements (1-2 dimensions), instance-handle copies, if/elif/else, while, '
         'for each, break/continue, create (with and without variable), delete, relate/unrelate (+phrase, +using), '
         'select any/many from instances (+where with selected), select one/any/many related by 1-3 step chains '
         '(+where), return, control stop, function/bridge/class-operation/instance-operation invocations as statements '
@@ -33,8 +33,8 @@ ASSUMPTIONS = [
     'programs are name-resolved against the synthetic base model (every class, attribute, relationship number, '
     'function, bridge, operation, parameter, enumerator, constant exists; external-entity and class key letters are '
     'disjoint; identifiers are not OAL keywords; relationship numbers are written canonically R<n>)',
-    'events (generate / create event instance), port messages (send), structured-type members, array elements and '
-    'bare (unqualified) constant names are outside the generated domain',
+    'events (generate / create event instance), port messages (send), structured-type members, arrays of instance '
+    'handles and bare (unqualified) constant names are outside the generated domain',
     'PLY lexing/LALR parsing is exercised, not modelled: the Lean parser is a recursive-descent parser for the '
     'generator output language, tied to the real parser by the correspondence run',
 ]
@@ -61,7 +61,7 @@ def _case(rng, i, home, size, feats=None, vary=True):
             'via_model': rng.random() < 0.15}
 
 
-FOCUS = [['assign'], ['assign', 'if'], ['assign', 'while', 'break', 'continue'], ['create', 'delete'],
+FOCUS = [['assign'], ['assign', 'array'], ['assign', 'if'], ['assign', 'while', 'break', 'continue'], ['create', 'delete'],
          ['create', 'relate', 'unrelate'], ['select_from', 'select_from_where'],
          ['select_from', 'create', 'select_rel', 'select_rel_where'], ['select_from', 'for', 'assign'],
          ['invoke'], ['assign_call'], ['create', 'select_from', 'assign_inst'], ['create', 'attr', 'self_attr'],
@@ -76,7 +76,7 @@ def generate(ctx):
             for j in range(per):
                 yield _case(rng.fork(fi, home, j), 0, home, rng.fork(fi, home, j, 's').randint(2, 6), set(feats))
     rng = ctx.rng.fork('random')
-    n = ctx.pick(2600, 40000)
+    n = ctx.pick(2000, 40000)
     maxsize = ctx.pick(10, 25)
     for i in range(n):
         if ctx.out_of_time():
@@ -99,7 +99,11 @@ def run_impl(case):
     tree1 = rig.parse(text1)          # generator output always parses; a ParseException here is a harness bug
     c1 = G.canon_py(_enc(tree1), _EES, _CLASSES)
     fails = []
-    m, h, text2 = rig.translate(case['home'], text1, case.get('via_model', False))
+    try:
+        m, h, text2 = rig.translate(case['home'], text1, case.get('via_model', False))
+    except G.OutOfDomain as e:
+        # never a verdict: a generated case that gets here shows up as a correspondence disagreement (generator bug)
+        return {'obs': [Sym('out-of-domain'), str(e)], 'd_fail': [], 'nontrivial': False, 'stats': {'out_of_domain': 1}}
     toks = [[Sym(t), v] for t, v in rig.tokens(text2)]
     c2 = Sym('none')
     try:
